@@ -6785,6 +6785,11 @@ class SFTPServerHandler(SFTPHandler):
         if src and dst:
             read_to_end = read_from_length == 0
 
+            if src is dst and (read_to_end or
+                               abs(read_from_offset - write_to_offset) <
+                               read_from_length):
+                raise SFTPInvalidParameter('Overlapping copy-data ranges')
+
             while read_to_end or read_from_length:
                 if read_to_end:
                     size = _COPY_DATA_BLOCK_SIZE
